@@ -117,6 +117,7 @@ func callTo(v ssa.Value, name string) *ssa.Call {
 }
 
 type walkerSpec struct {
+	f         *ssa.Function // set for helpers discovered by delegation (a listed walker that hands node and key on)
 	dir, fn   string
 	keyParam  int
 	k1        string // "", "return-value", "store-nil-value", "call:<name>", "return-nil-node"
@@ -128,10 +129,52 @@ func (c *Ctx) ruleKeyMatch(specs []walkerSpec) {
 	c.doc("R-KEYMATCH/K2", "every load X.Children[key[i]] with the index taken from the search key is dominated by a fact implying that X.PartialKey is a prefix of the key: bytes.HasPrefix(key, pk) true; lenCommonPrefix(pk,key) < len(pk) false; or (len(key)==len(pk)+1 && HasPrefix(pk, key[:len(key)-1])), possibly established at every call site")
 	c.doc("R-KEYMATCH/K1", "the target action of each walker (returning/clearing the node's value, deleting the leaf) is reachable only through the true edge of bytes.Equal(pk, key) or of len(key)==0")
 	c.doc("R-KEYMATCH/K1-strict", "the target action must not be reachable through len(key)==0 alone (an exhausted key is not a match when the partial key is not empty)")
+	listed := map[string]bool{}
 	for _, sp := range specs {
-		f := c.fn(sp.dir, sp.fn)
+		listed[sp.dir+":"+sp.fn] = true
+	}
+	done := map[*ssa.Function]bool{}
+	for qi := 0; qi < len(specs); qi++ {
+		sp := specs[qi]
+		f := sp.f
 		if f == nil {
+			f = c.fn(sp.dir, sp.fn)
+		}
+		if f == nil || done[f] {
 			continue
+		}
+		done[f] = true
+		// delegation: a walker that passes its key (or a value derived from it) and returns the result of an unlisted
+		// function of the same package hands its obligations to that function (extract-function refactorings)
+		var cands []walkerSpec
+		if sp.keyParam < len(f.Params) {
+			eachInstr(f, func(_ *ssa.BasicBlock, _ int, in ssa.Instruction) {
+				call, ok := in.(*ssa.Call)
+				if !ok {
+					return
+				}
+				g := call.Call.StaticCallee()
+				if g == nil || g == f || g.Pkg != f.Pkg || g.Blocks == nil || done[g] || listed[sp.dir+":"+g.Name()] || listed[sp.dir+":"+shortFn(g)] {
+					return
+				}
+				hasNode := false
+				for _, a := range call.Call.Args {
+					if isNodePtr(a.Type()) {
+						hasNode = true
+					}
+				}
+				if !hasNode {
+					return
+				}
+				for i, a := range call.Call.Args {
+					if derivedFrom(a, f.Params[sp.keyParam]) && i < len(g.Params) && g.Params[i].Type().String() == "[]byte" {
+						nsp := sp
+						nsp.f, nsp.fn, nsp.keyParam, nsp.caller = g, shortFn(g), i, false
+						cands = append(cands, nsp)
+						break
+					}
+				}
+			})
 		}
 		if sp.keyParam >= len(f.Params) {
 			c.undecided("R-KEYMATCH", "signature of "+sp.fn)
@@ -296,6 +339,9 @@ func (c *Ctx) ruleKeyMatch(specs []walkerSpec) {
 
 		// ---- K1
 		if sp.k1 == "" {
+			if ord == 0 {
+				specs = append(specs, cands...) // no descent of its own: the helper it forwards to carries K2
+			}
 			continue
 		}
 		var targets []ssa.Instruction
@@ -369,6 +415,11 @@ func (c *Ctx) ruleKeyMatch(specs []walkerSpec) {
 			}
 		})
 		if len(targets) == 0 {
+			if len(cands) > 0 || sp.f != nil {
+				// a pure forwarder: the target action lives in the helper(s) it hands node and key to
+				specs = append(specs, cands...)
+				continue
+			}
 			c.undecided("R-KEYMATCH/K1", "no target action ("+sp.k1+") found in "+sp.fn)
 			continue
 		}
